@@ -2,7 +2,10 @@
 
 package gbn
 
-import "time"
+import (
+	"context"
+	"time"
+)
 
 // VH_C12_Close: Close is injected at a symbolic moment of a connection's life
 // (right after the handshake, in the middle of traffic, during a
@@ -147,4 +150,65 @@ func VH_C12_Close() {
 	vReach("quiesced")
 	vAssert(vLiveGoroutines() == 0, "goroutines left running after Close: "+vGoroutineDump())
 	vAssert(vLiveTickers() == 0, "tickers left running after Close")
+}
+
+// VH_C12_HandshakeAbort: the client's SYNACK is lost, so the client is in the
+// data phase while the server still waits for the SYNACK. The client's first
+// packets (data, or nothing for a while) reach the server either before its
+// handshake timeout - the server then gives up the handshake with an error and
+// closes - or after it (the server completes the handshake). No keep-alive.
+// If the server gave up, the client must be told (FIN over the working
+// transport): its Recv fails instead of hanging. If the server completed, the
+// message is delivered.
+func VH_C12_HandshakeAbort() {
+	p := &vPair{c2s: newLink("c2s", 0), s2c: newLink("s2c", 0)}
+	p.ctx, p.cancel = context.WithCancel(context.Background())
+	// client packets: #0 SYN, #1 SYNACK (lost)
+	p.c2s.armed, p.c2s.dropFrom, p.c2s.dropTo = true, 1, 2
+	srvDone, cliDone := make(chan struct{}), make(chan struct{})
+	go func() {
+		p.srv, p.srvErr = NewServerConn(p.ctx, p.s2c.send, p.c2s.recv)
+		close(srvDone)
+	}()
+	go func() {
+		p.cli, p.cliErr = NewClientConn(p.ctx, uint8(vIntRange("n", 1, 2)), p.c2s.send, p.s2c.recv)
+		close(cliDone)
+	}()
+	<-cliDone
+	vAssert(p.cliErr == nil, "client handshake failed although only its SYNACK was lost")
+	if p.cliErr != nil {
+		p.cancel()
+		return
+	}
+	// the client starts talking at once, or only after the server's handshake timeout
+	time.Sleep(time.Duration(vIntRange("client_waits_s", 0, 1)) * 3 * time.Second)
+	msg := vBytes("m", 1)
+	sendErr := make(chan error, 1)
+	go func() { sendErr <- p.cli.Send(msg) }()
+	select {
+	case <-srvDone:
+	case <-time.After(60 * time.Second):
+		vAssert(false, "server handshake neither completed nor failed within a minute")
+		p.cancel()
+		return
+	}
+	recvErr := make(chan error, 1)
+	go func() { _, err := p.cli.Recv(); recvErr <- err }()
+	if p.srvErr != nil || p.srv == nil {
+		vReach("server-gave-up")
+		select {
+		case err := <-recvErr:
+			vAssert(err != nil, "client Recv returned data from a server that gave up")
+		case <-time.After(30 * time.Second):
+			vAssert(false, "the server gave up its handshake over a working transport but the client was not told: its Recv hangs")
+		}
+		p.cancel()
+		p.cli.Close()
+		return
+	}
+	vReach("server-completed")
+	got, err := p.srv.Recv()
+	vAssert(err == nil && vBytesEq(got, msg), "message not delivered after the server completed the handshake")
+	vAssert(<-sendErr == nil, "client Send failed")
+	p.shutdown()
 }
